@@ -961,6 +961,11 @@ class Translator:
                 a0 = a0['inner'][0]
             if a0.get('kind') == 'DeclRefExpr' and a0['referencedDecl']['id'] in self.lambdas:
                 return self.inline_lambda(n, self.lambdas[a0['referencedDecl']['id']], args[1:])
+        if name in ('operator==', 'operator!=') and len(args) == 2 and all(a.get('kind') == 'CXXTypeidExpr' and a.get('typeArg') for a in args):
+            # typeid(A) == typeid(B) of two TYPES: decided by the (desugared) type spellings of this instantiation
+            ta = [(a['typeArg'].get('desugaredQualType') or a['typeArg']['qualType']).replace(' ', '') for a in args]
+            same = ta[0] == ta[1]
+            return '1 /* typeid(%s) == typeid(%s) */' % tuple(ta) if same == (name == 'operator==') else '0 /* typeid(%s) vs typeid(%s) */' % tuple(ta)
         cn = self.fn_cname(ref)
         d = self.full_decl(ref)
         if cn:
@@ -1170,6 +1175,36 @@ class Translator:
                 oct_ = None
             if o.startswith('OPQ_ELEM('):
                 oct_ = 'c_opaque'
+            if oct_ in ('c_opaque', None) and name == 'write' and len(args) == 2:
+                # ostream::write(p, n): the bytes go to the unit's ghost sink; what p points at decides the macro
+                x = args[0]
+                while x.get('kind') in ('ImplicitCastExpr', 'CXXReinterpretCastExpr', 'CStyleCastExpr', 'ParenExpr', 'CXXStaticCastExpr') and x.get('inner'):
+                    x = [y for y in x['inner'] if y][0]
+                nb = self.e(args[1])
+                self.cur.stubs.add('ostream::write(p, n) appends n bytes to the file: ghost sink macros SINK_WRITE_* of the unit prelude')
+                if x.get('kind') == 'UnaryOperator' and x.get('opcode') == '&':
+                    tgt = [y for y in x['inner'] if y][0]
+                    try:
+                        tct = self.tm.tname(tgt['type'])
+                    except ExtractError:
+                        tct = None
+                    if tct in SCALAR_C and tct != 'c_opaque':
+                        return 'SINK_WRITE_SCALAR(%s, %s)' % (self.e(tgt), nb)
+                if x.get('kind') == 'CXXMemberCallExpr' and x['inner'][0].get('name') in ('data', 'c_str'):
+                    vobj = x['inner'][0]['inner'][0]
+                    try:
+                        vct = self.tm.tname(vobj['type']).rstrip(' *').rstrip()
+                    except ExtractError:
+                        vct = None
+                    vk = self.tm.kinds.get(vct)
+                    if vk and vk[0] == 'vec':
+                        cpp_elem = (vobj['type'].get('desugaredQualType') or vobj['type']['qualType'])
+                        mm = re.search(r'vector<\s*([\w ]+?)\s*[,>]', cpp_elem)
+                        es = {'int': 4, 'unsigned int': 4, 'float': 4, 'double': 8, 'char': 1, 'long': 8, 'unsigned long': 8}.get(mm.group(1).strip() if mm else '', None)
+                        if es:
+                            v = self.e(vobj)
+                            return 'SINK_WRITE_VEC(%s, %s, %d)' % ('(*%s)' % v if x['inner'][0].get('isArrow') else v, nb, es)
+                return 'SINK_WRITE_RAW(%s)' % nb
             if oct_ == 'c_opaque' and name == 'read' and len(args) == 2:
                 a0 = self.e(args[0])
                 if a0.startswith('VEC_DATA('):
@@ -1485,8 +1520,30 @@ class Translator:
         c0 = n
         while c0.get('kind') in ('ExprWithCleanups',) and c0.get('inner'):
             c0 = c0['inner'][0]
+        if c0.get('kind') == 'CXXOperatorCallExpr':
+            # std::cerr << ... ; console diagnostics: dropped (logged) when the operands have no side effects
+            root = c0
+            while root.get('kind') == 'CXXOperatorCallExpr' and len(root.get('inner', [])) == 3 and \
+                    (self.callee_decl(root['inner'][0])[0] or {}).get('name') == 'operator<<':
+                root = root['inner'][1]
+            while root.get('kind') in ('ImplicitCastExpr', 'ParenExpr') and root.get('inner'):
+                root = root['inner'][0]
+            if root.get('kind') == 'DeclRefExpr' and root['referencedDecl'].get('kind') == 'VarDecl' and \
+                    root['referencedDecl'].get('name') in ('cerr', 'cout', 'clog') and root is not c0:
+                if not any(y.get('kind') in ('CallExpr', 'CXXMemberCallExpr', 'CompoundAssignOperator') or
+                           (y.get('kind') == 'UnaryOperator' and y.get('opcode') in ('++', '--')) or
+                           (y.get('kind') == 'BinaryOperator' and y.get('opcode') == '=') for y in walk(c0)):
+                    self.cur.dropped.append(('console output (std::%s << ...)' % root['referencedDecl']['name'], self._line(n)))
+                    return
         if c0.get('kind') == 'CallExpr':
             ref, _ = self.callee_decl(c0['inner'][0])
+            if ref and ref.get('name') in ('exit', '_Exit', 'abort', 'quick_exit') and self.full_decl(ref) is None:
+                # the process ends without a result or an exception: an obligation that this is never reached
+                for a in c0['inner'][1:]:
+                    self.e_or_pure_skip(a)
+                self.out('VERIF_OBL(0, "%s/std::%s is never reached (line %s)");' % (self.cur.cname, ref['name'], self._line(n)))
+                self.out('__CPROVER_assume(0);')
+                return
             if ref and ref.get('name') == 'transform' and self.full_decl(ref) is None:
                 return self.std_transform(c0)
             if ref and ref.get('name') == 'iota' and self.full_decl(ref) is None:
@@ -1507,6 +1564,8 @@ class Translator:
                 if me['name'] == 'assign' and len(margs) == 2 and not margs[0]['type']['qualType'].rstrip().endswith(('*', 'iterator')) \
                         and 'iterator' not in margs[0]['type']['qualType']:
                     return self.vec_update(o, self.e(margs[0]), self.e(margs[1]), None, 'vector::assign(n, x): n copies of x')
+                if me['name'] == 'resize' and len(margs) == 2:
+                    return self.vec_update(o, self.e(margs[0]), self.e(margs[1]), 'keep', 'vector::resize(n, v): the first min(n, size) elements are kept, new elements are copies of v')
                 if me['name'] == 'resize' and len(margs) == 1:
                     return self.vec_update(o, self.e(margs[0]), '0', 'keep', 'vector::resize(n): the first min(n, size) elements are kept, new elements are value-initialised')
         af = self._assert_cond(n)
